@@ -1,8 +1,12 @@
 #!/bin/sh
-# Offline setup: regenerate tables from /repo and build the whole Lean project (model, driver,
-# agreement lemmas, property theorems).  No network, no elan, no Mathlib import needed.
+# Offline setup: regenerate the tables and the shipped-configuration data from /repo's working tree
+# and build the whole Lean project (model, native driver, agreement lemmas, every property module).
+# No network, no elan, no Mathlib import needed.  Each check rebuilds what it needs anyway; building
+# everything here only moves the cost out of the first check.
 set -e
 cd "$(dirname "$0")"
-/venv/bin/python -m harness.extract tables
+/venv/bin/python -m harness.extract tables configs
 cd lean
-lake build
+lake build gvdriver GridVerse
+targets=$(ls GridVerse/Props/*.lean GridVerse/Agree/*.lean | sed 's/\.lean$//; s#/#.#g')
+lake build $targets
